@@ -318,6 +318,34 @@ func c20EqPool() []poolVal {
 			return variants.VariantFromArray([]*variants.Variant{variants.VariantFromArray([]*variants.Variant{variants.VariantFromInteger(2)})})
 		}},
 	)
+	// nested lists whose rows are one shared variant object / distinct but equal / different in a later row
+	row := func(xs ...int) *variants.Variant {
+		r := []*variants.Variant{}
+		for _, x := range xs {
+			r = append(r, variants.VariantFromInteger(x))
+		}
+		return variants.VariantFromArray(r)
+	}
+	p = append(p,
+		poolVal{"Array[R,R] (R=[1,2], one object twice)", func() *variants.Variant { r := row(1, 2); return variants.VariantFromArray([]*variants.Variant{r, r}) }},
+		poolVal{"Array[[1,2],[1,2]]", func() *variants.Variant { return variants.VariantFromArray([]*variants.Variant{row(1, 2), row(1, 2)}) }},
+		poolVal{"Array[[1,2],[1,3]]", func() *variants.Variant { return variants.VariantFromArray([]*variants.Variant{row(1, 2), row(1, 3)}) }},
+		poolVal{"Array[R,[0],R,R] (R=[1,2])", func() *variants.Variant {
+			r := row(1, 2)
+			return variants.VariantFromArray([]*variants.Variant{r, row(0), r, r})
+		}},
+		poolVal{"Array[[1,2],[0],[1,2],[2,1]]", func() *variants.Variant {
+			return variants.VariantFromArray([]*variants.Variant{row(1, 2), row(0), row(1, 2), row(2, 1)})
+		}},
+		poolVal{"Array[S,S] (S=[[1],[1]] sharing its row too)", func() *variants.Variant {
+			r := row(1)
+			s := variants.VariantFromArray([]*variants.Variant{r, r})
+			return variants.VariantFromArray([]*variants.Variant{s, s})
+		}},
+		poolVal{"Array[[[1],[1]],[[1],[2]]]", func() *variants.Variant {
+			return variants.VariantFromArray([]*variants.Variant{variants.VariantFromArray([]*variants.Variant{row(1), row(1)}), variants.VariantFromArray([]*variants.Variant{row(1), row(2)})})
+		}},
+	)
 	// lists with absent (nil) element slots: a slot both lists leave empty says nothing about the rest
 	in := func(x int) *variants.Variant { return variants.VariantFromInteger(x) }
 	for _, e := range []struct {
